@@ -21,11 +21,11 @@ PROPS = {
                         "contents are shorter than 2^31 bytes and list ids fit int32, as the property quantifies"],
     },
     "C20": {
-        "families": [fam("c20html", 120, 1500)],
+        "families": [fam("c20html", 400, 2500)],
         "defects": ["D12"],
         "rule": "bodies over all 256 byte values (plain, or gzip-compressed by the harness with Content-Encoding: gzip) with 0..n markers "
                 "in random letter case placed before, inside, straddling and beyond the 16 KiB window, long runs of high bytes before "
-                "the marker (the D12 shape), near-markers (cut, with high bytes, Kelvin sign / long s), through proxy.VerifFilterHTML; "
+                "the marker (the D12 shape), near-markers (cut, with high bytes, Kelvin sign / long s, one bit of one marker byte flipped), through proxy.VerifFilterHTML; "
                 "answer = new body, ContentLength, Content-Encoding and CSP headers still present; every 4th body also through "
                 "findBodyInjectionIndex; non-trivial = every answer (the body is always returned); distinct by hash of the op input",
         "assumptions": ["compress/gzip is an oracle (the model receives the decompressed body)",
